@@ -152,6 +152,9 @@ pub enum EventKind {
     Init,
     BeginKeywords,
     EndKeywords,
+    /// push / pop of the internal "directive" keyword set around macro names
+    BeginKeywordsDirective,
+    EndKeywordsDirective,
     ClearVersion,
     BeginDirective,
     EndDirective,
